@@ -517,10 +517,13 @@ func runSequential(c *vlib.Ctx, share float64) {
 			{"full26-cap20", 20, len(alphabet), 1, 4},
 			{"mid18-cap20", 20, midN, 5, 5},
 			{"core12-cap40", 40, coreN, 6, 6},
-			{"core12-cap20", 20, coreN, 6, 6},
 		}
 	} else {
-		fams = []family{{"full26-cap40", 40, len(alphabet), 1, 4}, {"full26-cap20", 20, len(alphabet), 1, 4}}
+		fams = []family{
+			{"full26-cap40", 40, len(alphabet), 1, 4},
+			{"full26-cap20", 20, len(alphabet), 1, 3},
+			{"mid18-cap20", 20, midN, 4, 4},
+		}
 	}
 	st := &seqStats{outcomes: map[string]int64{}}
 	var nseq int64
@@ -968,15 +971,15 @@ func scenarios() []d1x.Scenario {
 	E, V := true, false
 	_ = V
 	return []d1x.Scenario{
-		mkR("r3-value", rscen{rkeys: []int{0, 0, 0}}, 2, 3, 3),
-		mkR("r3-err-value", rscen{rkeys: []int{0, 0, 0}, turns: [][]bool{{E}}}, 2, 3, 3),
-		mkR("r3-err-err-value", rscen{rkeys: []int{0, 0, 0}, turns: [][]bool{{E, E}}}, 1, 2, 2),
-		mkR("r3-all-error", rscen{rkeys: []int{0, 0, 0}, turns: [][]bool{{E, E, E}}}, 1, 2, 2),
-		mkR("r2-evictfile", rscen{rkeys: []int{0, 0}, mut: "evict"}, 2, 3, 2),
-		mkR("r2-delete", rscen{rkeys: []int{0, 0}, mut: "delete"}, 1, 2, 1),
-		mkR("r2-err-evictfile", rscen{rkeys: []int{0, 0}, turns: [][]bool{{E}}, mut: "evict"}, 1, 2, 1),
-		mkR("r2-set", rscen{rkeys: []int{0, 0}, mut: "set"}, 1, 2, 1),
-		mkR("two-keys", rscen{rkeys: []int{0, 1, 0, 1}, turns: [][]bool{{E}, nil}}, 1, 2, 2),
+		mkR("r3-value", rscen{rkeys: []int{0, 0, 0}}, 2, 3, 5),
+		mkR("r3-err-value", rscen{rkeys: []int{0, 0, 0}, turns: [][]bool{{E}}}, 2, 3, 6),
+		mkR("r3-err-err-value", rscen{rkeys: []int{0, 0, 0}, turns: [][]bool{{E, E}}}, 1, 2, 1),
+		mkR("r3-all-error", rscen{rkeys: []int{0, 0, 0}, turns: [][]bool{{E, E, E}}}, 1, 2, 1),
+		mkR("r2-evictfile", rscen{rkeys: []int{0, 0}, mut: "evict"}, 2, 3, 1),
+		mkR("r2-delete", rscen{rkeys: []int{0, 0}, mut: "delete"}, 2, 3, 1),
+		mkR("r2-err-evictfile", rscen{rkeys: []int{0, 0}, turns: [][]bool{{E}}, mut: "evict"}, 2, 3, 1),
+		mkR("r2-set", rscen{rkeys: []int{0, 0}, mut: "set"}, 2, 3, 1),
+		mkR("two-keys", rscen{rkeys: []int{0, 1, 0}, turns: [][]bool{{E}, nil}}, 1, 2, 1),
 	}
 }
 
@@ -1004,7 +1007,10 @@ func TestCheck(t *testing.T) {
 			d1x.Run(t, c, scenarios())
 			return
 		}
-		share := 0.3
+		share := 0.25
+		if c.Thorough() {
+			share = 0.3
+		}
 		if os.Getenv("VERIF_SCENARIO") == "" {
 			runSequential(c, share)
 		}
